@@ -574,6 +574,19 @@ impl Sim {
             Op::ExtraDel(t, k) => self.do_extra(i, *t, k, None),
             Op::TakeRef(id) => self.take_ref(i, id),
             Op::Get(_) | Op::Has(_) | Op::Stats => None,
+            Op::RemoveBackup(which) => {
+                let e = self.dir.join("event.map.bak");
+                let l = self.dir.join("lmdb.bak");
+                if (*which == 0 || *which == 2) && e.exists() {
+                    let _ = fs::remove_file(&e);
+                    self.stats.inc("fault/backup_part_removed");
+                }
+                if (*which == 1 || *which == 2) && l.exists() {
+                    let _ = fs::remove_dir_all(&l);
+                    self.stats.inc("fault/backup_part_removed");
+                }
+                None
+            }
             Op::Sync => {
                 // a sync changes nothing observable
                 self.stats.inc("op_sync");
